@@ -518,6 +518,11 @@ def indirect_stream(chk):
             if t.type in ('STRING', 'COMMENT', 'SYMBOL') and t.text != t.line[t.offset:t.offset + len(t.text)]:
                 chk.fail('tiling', f'token text {t.text!r} is not the input text at its position', case)
                 break
+            # ... and the INPUT's own characters (not a rewritten copy of the line)
+            if 1 <= t.lineno <= len(lines) and t.text != lines[t.lineno - 1][t.offset:t.offset + len(t.text)]:
+                chk.fail('tiling', f'token text {t.text!r} differs from the characters of the input it covers '
+                         f'({lines[t.lineno - 1][t.offset:t.offset + len(t.text)]!r})', case)
+                break
             if ('\t' in lines[t.lineno - 1][t.offset:t.offset + len(t.text)]) != ('\t' in t.text):
                 chk.fail('tiling', f'token {t.text!r} does not carry the characters of the span it covers', case)
                 break
@@ -585,6 +590,77 @@ def position_stream(chk):
                     chk.fail('lineno', f'{name}: {k} blanks in front of the text turn {str(base)[:120]} into {str(got)[:120]}', dict(case, blanks=k))
     chk.stat('position-texts', n)
     chk.stat('position-texts-with-error', bad)
+    cli_position_stream(chk)
+
+
+def cli_position_stream(chk):
+    """The same at the command line: with several FILE arguments the position of an error is a position in the file
+    that contains it (each file is lexed on its own, line numbers start again at 1, an unfinished graph at the end of
+    one file is not continued by the next)."""
+    import os
+    import tempfile
+    import penman
+    from harness import c20
+    rng = chk.rng
+    n = 60 if chk.tier == 'quick' else 600
+    done = 0
+    for i in range(n):
+        nfiles = rng.randint(2, 3)
+        k = rng.randrange(nfiles)
+        texts = []
+        for j in range(nfiles):
+            if j == k:
+                t = rng.choice(['(a / alpha\n  :ARG0 (b / beta', '(a / alpha\n  :ARG0 b))\n(c / d ~', '\n\n(a / b :x "q)\n', '# ::id 1\n(a / b\n ~1)',
+                                gen.random_penman_text(rng, maxdepth=2, p_bad=1.0)])
+            else:
+                t = '\n\n'.join(gen.random_penman_text(rng, maxdepth=2, p_bad=0) for _ in range(rng.randint(1, 2))) + '\n'
+            texts.append(t)
+        d = tempfile.mkdtemp(prefix='c08cli_')
+        try:
+            paths = []
+            for j, t in enumerate(texts):
+                pth = os.path.join(d, f'f{j}.txt')
+                with open(pth, 'w', encoding='utf-8', newline='') as f:
+                    f.write(t)
+                paths.append(pth)
+
+            def alone(pth):
+                with open(pth, encoding='utf-8') as f:
+                    try:
+                        common.timed(lambda: list(penman.iterparse(f)), seconds=5)
+                        return None
+                    except penman.DecodeError as e:
+                        return ('DecodeError', e.lineno, e.offset, e.text)
+                    except Exception as e:     # noqa
+                        return (type(e).__name__,)
+            refs = [alone(pth) for pth in paths]
+            first_bad = next((j for j, r in enumerate(refs) if r is not None), None)
+            if first_bad is None or refs[first_bad][0] != 'DecodeError':
+                continue
+            # the files before it must go through the whole command (a text can parse and still not be laid out)
+            try:
+                if any(c20.run_cli_inprocess([], None, [pth])[1] != 0 for pth in paths[:first_bad]):
+                    continue
+            except Exception:      # noqa
+                continue
+            case = {'stream': 'cli-positions', 'files': texts}
+            chk.count(('cli-positions', tuple(texts)))
+            try:
+                out, code, err = c20.run_cli_inprocess([], None, paths)
+                got = ('exit', code)
+            except penman.DecodeError as e:
+                got = ('DecodeError', e.lineno, e.offset, e.text)
+            except Exception as e:     # noqa
+                got = (type(e).__name__,)
+            done += 1
+            if got != refs[first_bad]:
+                chk.fail('lineno', f'penman f0 .. f{nfiles - 1}: the command ends with {str(got)[:140]} but file f{first_bad} on its own '
+                         f'gives {str(refs[first_bad])[:140]}', case)
+        finally:
+            for f in os.listdir(d):
+                os.unlink(os.path.join(d, f))
+            os.rmdir(d)
+    chk.stat('cli-position-runs', done)
 
 
 def replay(obj):
